@@ -128,6 +128,10 @@ static int objseg_cb(struct dl_phdr_info *info, size_t size, void *arg)
 
 static bool in_object(uintptr_t a, size_t sz)
 {
+	/* static TLS of the (only) host thread: glibc's ctype macros read a pointer from it */
+	uintptr_t tp = (uintptr_t)__builtin_thread_pointer();
+	if (a + sz <= tp + 4096 && a >= tp - 65536)
+		return true;
 	for (int i = 0; i < nobjseg; i++)
 		if (a >= objseg[i].lo && a + sz <= objseg[i].hi)
 			return true;
